@@ -1,14 +1,16 @@
 /-
   Model of gocql's `ring` (ring.go) — the three indexes `hosts` (by host id), `hostIPToUUID`
-  (host id by node-to-node address), `hostList` (ordered) — and of the diff loop of
-  `refreshRing` (host_source.go): add / update / replace on address change / remove.
-  `Ring.remove` is `removeHost` as REPAIRED for KF-C16-1 (props/C16.fix-KF-C16-1.diff).
+  (host id by node-to-node address), `hostList` (ordered) — and of the diff part of
+  `refreshRing` (host_source.go): remove what is gone (vanished, address changed), add what is missing.
+  `Ring.remove` is `removeHost` as REPAIRED for KF-C16-1, `Ring.updateStored` is `addOrUpdate` as repaired
+  for KF-C16-5, `Ring.refresh` is `refreshRing` as repaired for KF-C16-4 / KF-C16-6 (props/C16.fix-*.diff).
 
   An `RHost` stands for one `*HostInfo` object: `obj` is the identity of the object, `id` its host id,
   `addr` its node-to-node address (broadcast_address or peer; 0 = none, i.e. 0.0.0.0),
   `caddr` its connectAddress field (0 = unset, ConnectAddress() then falls back to `addr`).
-  `HostInfo.update` only fills fields that are empty, so it never changes id or a set address: the
-  model treats it as the identity on (id, addr, caddr).
+  `HostInfo.update` only fills fields that are empty, so it never changes id or a set address: in
+  `refreshRing` (where it is called for a row with the addresses of the stored object) the model treats it
+  as the identity on (id, addr, caddr); in `addOrUpdate` it can change the node address (`updateStored`).
   Core Lean only.
 -/
 namespace Ring
@@ -85,8 +87,42 @@ def Ring.removeOld (r : Ring) (id : Nat) : Ring × Bool :=
   | some h => ({ byId := erase r.byId id, byIp := erase r.byIp h.addr, list := eraseFirstId r.list id }, true)
   | none => (r, false)
 
-inductive RefreshResult | ok | errCannotFind | errAlreadyExists
-deriving DecidableEq, Repr
+/-- `addOrUpdate` on a host id that is stored, when `HostInfo.update(host)` leaves the stored object with
+node address `a` and connectAddress field `c` (`update` fills unset fields: a peer-sourced object that
+receives a broadcast_address gets a new node address). Every reference to the object sees the new
+fields. REPAIRED (KF-C16-5): when the node address changed the by-address index is re-keyed
+(`if r.hostIPToUUID[oldIP] == hostID { delete(r.hostIPToUUID, oldIP) }; r.hostIPToUUID[newIP] = hostID`). -/
+def Ring.updateStored (r : Ring) (id a c : Nat) : Ring :=
+  match lookup r.byId id with
+  | none => r
+  | some h =>
+    let h' : RHost := { h with addr := a, caddr := c }
+    { byId := r.byId.map (fun e => if e.1 == id then (e.1, h') else e),
+      byIp := if a == h.addr then r.byIp
+              else put (if lookup r.byIp h.addr = some id then erase r.byIp h.addr else r.byIp) a id,
+      list := r.list.map (fun x => if x == h then h' else x) }
+
+/-- the same before the repair of KF-C16-5 (kept for the regression example only): the by-address index
+keeps the old key -/
+def Ring.updateStoredOld (r : Ring) (id a c : Nat) : Ring :=
+  match lookup r.byId id with
+  | none => r
+  | some h =>
+    let h' : RHost := { h with addr := a, caddr := c }
+    { byId := r.byId.map (fun e => if e.1 == id then (e.1, h') else e), byIp := r.byIp,
+      list := r.list.map (fun x => if x == h then h' else x) }
+
+/-! ### refreshRing (host_source.go), REPAIRED for KF-C16-4 and KF-C16-6
+
+    reported := the accepted (not filtered) reported hosts by host id, the FIRST row of every id
+    for hostID, existing := range prevHosts:            -- pass 1: what is gone is removed first
+        unless reported[hostID] has the connect address and node address of existing: session.removeHost(existing)
+    for _, h := range hosts:                             -- pass 2: what is missing is added
+        skip h when filtered or when it is not the first row of its id
+        if addHostIfMissing(h) added it: startPoolFill(h)  else  host.update(h)
+
+Before the repair the hosts were added (and moved hosts replaced) in one loop and the vanished hosts removed
+afterwards, and a host id reported twice aborted the loop with ErrCannotFindHost. -/
 
 /-- what the refresh asked the session to do besides the ring updates -/
 structure Effects where
@@ -94,46 +130,36 @@ structure Effects where
   removed : List RHost := []    -- session.removeHost(h): policy.RemoveHost + pool.removeHost + ring.removeHost
 deriving Repr
 
-/-- one iteration of the `for _, h := range hosts` loop of `refreshRing`;
-state: ring, prevHosts, effects. A result other than `ok` means the function returned that error
-at this point (the state is what it left behind). -/
-def refreshStep (filter : RHost → Bool) (st : Ring × List (Nat × RHost) × Effects) (h : RHost) :
-    (Ring × List (Nat × RHost) × Effects) × RefreshResult :=
-  let (r, prev, eff) := st
-  if filter h then (st, .ok) else
-  match r.addIfMissing h with
-  | (r1, _, false) => ((r1, erase prev h.id, { eff with filled := eff.filled ++ [h] }), .ok)
-  | (_, _, true) =>
-    match lookup prev h.id with
-    | none => (st, .errCannotFind)
-    | some existing =>
-      if h.caddr == existing.caddr && h.addr == existing.addr then
-        ((r, erase prev h.id, eff), .ok)       -- host.update(h)
-      else
-        let r2 := (r.remove existing.id).1
-        let eff2 : Effects := { eff with removed := eff.removed ++ [existing] }
-        match r2.addIfMissing h with
-        | (_, _, true) => ((r2, prev, eff2), .errAlreadyExists)
-        | (r3, _, false) => ((r3, erase prev h.id, { eff2 with filled := eff2.filled ++ [h] }), .ok)
+/-- the `reported` map: the accepted reported hosts by host id (`lookup` = first match: of a host id
+reported twice the first accepted row counts) -/
+def reportedMap (filter : RHost → Bool) (reported : List RHost) : List (Nat × RHost) :=
+  (reported.filter (fun h => !filter h)).map (fun h => (h.id, h))
 
-def refreshLoop (filter : RHost → Bool) :
-    List RHost → Ring × List (Nat × RHost) × Effects → (Ring × List (Nat × RHost) × Effects) × RefreshResult
-  | [], st => (st, .ok)
-  | h :: t, st =>
-    let (st', res) := refreshStep filter st h
-    if res = .ok then refreshLoop filter t st' else (st', res)
+/-- a host of the ring stays: its id is still reported, with the same connect address and node address -/
+def stays (rep : List (Nat × RHost)) (e : Nat × RHost) : Bool :=
+  match lookup rep e.1 with
+  | some h => h.caddr == e.2.caddr && h.addr == e.2.addr
+  | none => false
 
-/-- the final `for _, host := range prevHosts { removeHost(host) }` (order irrelevant: a set) -/
+/-- `for … { session.removeHost(existing) }` over the given hosts (order irrelevant: a set) -/
 def removeAll (r : Ring) : List (Nat × RHost) → Ring
   | [] => r
   | (_, h) :: t => removeAll (r.remove h.id).1 t
 
-/-- the diff part of `refreshRing` given the reported hosts (local host + valid peers).
-On an error the function returns where it is: the remaining hosts are not processed, nothing else is removed. -/
-def Ring.refresh (r : Ring) (filter : RHost → Bool) (reported : List RHost) : Ring × RefreshResult × Effects :=
-  match refreshLoop filter reported (r, r.byId, {}) with
-  | ((r1, prev, eff), .ok) => (removeAll r1 prev, .ok, { eff with removed := eff.removed ++ prev.map (·.2) })
-  | ((r1, _, eff), e) => (r1, e, eff)
+/-- one iteration of the second loop for an accepted host: state = ring, hosts filled so far.
+When the id is already stored the row is either the first row of a host that stayed (`host.update(h)`: the
+identity on id and addresses, the rows agree on them) or a later row of an id reported twice (skipped by
+`reported[h.HostID()] != h`): the ring is left as it is in both cases. -/
+def addStep (st : Ring × List RHost) (h : RHost) : Ring × List RHost :=
+  match st.1.addIfMissing h with
+  | (r1, _, false) => (r1, st.2 ++ [h])
+  | (_, _, true) => st
+
+/-- the diff part of `refreshRing` given the reported hosts (local host + valid peers); it cannot fail -/
+def Ring.refresh (r : Ring) (filter : RHost → Bool) (reported : List RHost) : Ring × Effects :=
+  let gone := r.byId.filter (fun e => !stays (reportedMap filter reported) e)
+  let res := (reported.filter (fun h => !filter h)).foldl addStep (removeAll r gone, [])
+  (res.1, { filled := res.2, removed := gone.map (·.2) })
 
 /-! ### the observations the property speaks of ("node details are looked up by id and by address consistently") -/
 
